@@ -19,7 +19,7 @@ META = {
             "connections, including a third actor that re-creates the name, plus sequential histories with matching and "
             "mismatching parameters, abandon and forced removal; create results, does_exist and is_connected are "
             "validated by TLC against ConnAbs.tla.",
-    "note": "Trusted: TLC, drop-in atomics, preemption bound. The storage internals (named dynamic storage) are treated as "
+    "note": "Sequential programs include forced removals of roles that are not attached and repeated forced removals. Trusted: TLC, drop-in atomics, preemption bound. The storage internals (named dynamic storage) are treated as "
             "atomic open-or-create / destroy-by-name steps. Multi-process runs are not part of this check (threads only).",
     "design_ref": "DESIGN.md 5 C13",
     "replay": True,
